@@ -194,7 +194,9 @@ pub fn campaign(prop: &str, runs_per_worker: u64, workers: u32, report: &mut cra
     .arg(format!("-artifact_prefix={}/", artifacts.display()))
     .arg(format!("-runs={}", runs_per_worker))
     .arg(format!("-seed={}", seed))
-    .args(["-max_len=1024", "-len_control=0", "-print_final_stats=1", "-rss_limit_mb=4096"])
+    // A wall-clock cap per worker besides the run count: dag_ops inputs with many nodes are slow (all-pairs sweeps), and
+    // a campaign that hits the cap has simply explored less - never a violation.
+    .args(["-max_len=1024", "-len_control=0", "-print_final_stats=1", "-rss_limit_mb=4096", "-max_total_time=240"])
     .arg(format!("-jobs={}", workers)).arg(format!("-workers={}", workers))
     .output();
   let mut runs = 0u64;
